@@ -45,7 +45,7 @@ FAMILIES = {
     "var_s": fam(Ctors=["var", "map"], Fs1=["id"], Ops=["set", "update", "modify", "replace", "replace_with"],
                  MaxNodes=3, MaxObs=2, MaxActs=9, MaxRounds=3),
     # user functions that panic at their k-th run: crash-point enumeration (C13)
-    "panic_s": fam(Ctors=["var", "map", "map2"], Fs1=["id"], Effs=["panic"], MaxNodes=3, MaxObs=2, MaxActs=8, MaxRounds=3),
+    "panic_s": fam(Ctors=["var", "map", "map2"], Fs1=["id"], Effs=["panic", "h_panic"], MaxNodes=3, MaxObs=2, MaxSubs=1, MaxActs=8, MaxRounds=3),
     # user functions that write vars / read observers while stabilising (C08, C07)
     "eff_s": fam(Ctors=["var", "map", "drop"], Fs1=["id"], Effs=["set", "read", "set_drop"], Ops=["set", "update"],
                  MaxVars=2, MaxNodes=3, MaxObs=1, MaxActs=6, MaxRounds=3),
